@@ -40,6 +40,15 @@ pub mod mockhost {
             ANSWER as i32
         }
     }
+    /// canonical record of mixed(u8, u64, u16, u32, u8, u64, 11 x u32): u8 @0, u64 @8, u16 @16, u32 @20, u8 @24, u64 @32, u32 @40 + 4*i; size 88, alignment 8
+    pub unsafe fn verif_call_imp__mixed(rec: *mut u8) -> i32 {
+        unsafe {
+            IMPORT_CALLS += 1;
+            GOT_MIXED = read_mixed(rec);
+            GOT_MIXED_ALIGNED = rec as usize % 8 == 0;
+            ANSWER as i32
+        }
+    }
     /// an aggregate result comes back through a return pointer: (i32 arg, retptr) -> (); u32 @0, u64 @8
     pub unsafe fn verif_call_imp__pair(a: i32, ret: *mut u8) {
         unsafe {
@@ -47,6 +56,39 @@ pub mod mockhost {
             GOT_PAIR_ARG = a as u32;
             core::ptr::write_unaligned(ret.cast::<u32>(), ANSWER_PAIR.0);
             core::ptr::write_unaligned(ret.add(8).cast::<u64>(), ANSWER_PAIR.1);
+        }
+    }
+}
+
+pub type Mixed = (u8, u64, u16, u32, u8, u64, [u32; 11]);
+pub static mut GOT_MIXED: Mixed = (0, 0, 0, 0, 0, 0, [0; 11]);
+pub static mut GOT_MIXED_ALIGNED: bool = false;
+pub static mut SEEN_MIXED: Mixed = (0, 0, 0, 0, 0, 0, [0; 11]);
+/// the host's view of the record, written by hand from CanonicalABI.md (each field at the next multiple of its alignment)
+pub unsafe fn read_mixed(rec: *mut u8) -> Mixed {
+    unsafe {
+        let mut g = [0u32; 11];
+        let mut i = 0;
+        while i < 11 {
+            g[i] = core::ptr::read_unaligned(rec.add(40 + 4 * i).cast::<u32>());
+            i += 1;
+        }
+        (*rec, core::ptr::read_unaligned(rec.add(8).cast::<u64>()), core::ptr::read_unaligned(rec.add(16).cast::<u16>()), core::ptr::read_unaligned(rec.add(20).cast::<u32>()),
+         *rec.add(24), core::ptr::read_unaligned(rec.add(32).cast::<u64>()), g)
+    }
+}
+pub unsafe fn write_mixed(rec: *mut u8, m: &Mixed) {
+    unsafe {
+        *rec = m.0;
+        core::ptr::write_unaligned(rec.add(8).cast::<u64>(), m.1);
+        core::ptr::write_unaligned(rec.add(16).cast::<u16>(), m.2);
+        core::ptr::write_unaligned(rec.add(20).cast::<u32>(), m.3);
+        *rec.add(24) = m.4;
+        core::ptr::write_unaligned(rec.add(32).cast::<u64>(), m.5);
+        let mut i = 0;
+        while i < 11 {
+            core::ptr::write_unaligned(rec.add(40 + 4 * i).cast::<u32>(), m.6[i]);
+            i += 1;
         }
     }
 }
@@ -73,6 +115,14 @@ impl Guest for Impl {
         unsafe {
             CALLS += 1;
             SEEN17 = [a0, a1, a2, a3, a4, a5, a6, a7, a8, a9, a10, a11, a12, a13, a14, a15, a16];
+            RET
+        }
+    }
+    #[allow(clippy::too_many_arguments)]
+    fn mixed(a: u8, b: u64, c: u16, d: u32, e: u8, f: u64, g0: u32, g1: u32, g2: u32, g3: u32, g4: u32, g5: u32, g6: u32, g7: u32, g8: u32, g9: u32, g10: u32) -> u32 {
+        unsafe {
+            CALLS += 1;
+            SEEN_MIXED = (a, b, c, d, e, f, [g0, g1, g2, g3, g4, g5, g6, g7, g8, g9, g10]);
             RET
         }
     }
@@ -223,6 +273,54 @@ mod proofs {
             kani::assert(CALLS == 1 && SEEN_PAIR_ARG == a, "the user function is called once with the flat argument");
             kani::assert(core::ptr::read_unaligned(ret.cast::<u32>()) == r.0 && core::ptr::read_unaligned(ret.add(8).cast::<u64>()) == r.1,
                 "a two-field result is written to the return area at its canonical offsets");
+        }
+    }
+
+    fn any_mixed() -> Mixed {
+        (kani::any(), kani::any(), kani::any(), kani::any(), kani::any(), kani::any(), kani::any())
+    }
+    fn eq_mixed(x: &Mixed, y: &Mixed) -> bool {
+        let mut ok = x.0 == y.0 && x.1 == y.1 && x.2 == y.2 && x.3 == y.3 && x.4 == y.4 && x.5 == y.5;
+        let mut i = 0;
+        while i < 11 {
+            if x.6[i] != y.6[i] {
+                ok = false;
+            }
+            i += 1;
+        }
+        ok
+    }
+    /// parameters of mixed sizes beyond the flat limit: the record has every field at the next multiple of ITS alignment
+    #[kani::proof]
+    #[kani::unwind(13)]
+    pub fn c02_import_mixed_params_record_has_canonical_padding() {
+        let m = any_mixed();
+        let r: u32 = kani::any();
+        unsafe {
+            ANSWER = r;
+            let g = m.6;
+            let got = imp::mixed(m.0, m.1, m.2, m.3, m.4, m.5, g[0], g[1], g[2], g[3], g[4], g[5], g[6], g[7], g[8], g[9], g[10]);
+            kani::assert(IMPORT_CALLS == 1 && got == r, "exactly one core call; the scalar result is returned directly");
+            kani::assert(GOT_MIXED_ALIGNED, "the record is aligned for its most strictly aligned field");
+            kani::assert(eq_mixed(&GOT_MIXED, &m), "the host reads every parameter at its canonical offset (u8 @0, u64 @8, u16 @16, u32 @20, u8 @24, u64 @32, u32 @40..)");
+        }
+    }
+    #[kani::proof]
+    #[kani::unwind(13)]
+    #[kani::stub(alloc::alloc::dealloc, dealloc_stub)]
+    pub fn c02_export_mixed_params_record_read_at_canonical_offsets_freed_once() {
+        let m = any_mixed();
+        let r: u32 = kani::any();
+        unsafe {
+            RET = r;
+            let rec = alloc::alloc::alloc_zeroed(Layout::from_size_align(88, 8).unwrap());
+            kani::assume(!rec.is_null());
+            BLOCK = (rec as usize, 88, 8);
+            write_mixed(rec, &m);
+            let got = _export_mixed_cabi::<Impl>(rec);
+            kani::assert(CALLS == 1 && eq_mixed(&SEEN_MIXED, &m), "the user function is called once with every parameter read from its canonical offset");
+            kani::assert(got as u32 == r, "a scalar result is returned directly");
+            kani::assert(FREES == 1 && !BAD_FREE, "the caller-allocated parameter record is freed exactly once, with its canonical size (88) and alignment (8)");
         }
     }
 }
